@@ -43,6 +43,9 @@ pub fn word_cfgs(rng: &mut Rng) -> Vec<WordCfg> {
     WordCfg { words: Words { file: Some(leak(cf)), line: None }, file_word: cf.into(), line_word: "deno-lint-ignore".into(), decoys: vec!["deno-lint-ignore-file".into()], name: "custom/default" },
     WordCfg { words: Words { file: None, line: Some(leak(cl)) }, file_word: "deno-lint-ignore-file".into(), line_word: cl.into(), decoys: vec!["deno-lint-ignore".into()], name: "default/custom" },
     WordCfg { words: Words { file: Some(leak(cf)), line: Some(leak(cl)) }, file_word: cf.into(), line_word: cl.into(), decoys: vec!["deno-lint-ignore-file".into(), "deno-lint-ignore".into()], name: "custom/custom" },
+    // one word a prefix of the other, either way round (the defaults are such a pair themselves)
+    WordCfg { words: Words { file: Some("lint-disable"), line: Some("lint-disable-next-line") }, file_word: "lint-disable".into(), line_word: "lint-disable-next-line".into(), decoys: vec!["deno-lint-ignore-file".into(), "deno-lint-ignore".into(), "lint-disable-next".into()], name: "custom-prefix-of-custom" },
+    WordCfg { words: Words { file: Some("skip-all-of-it"), line: Some("skip") }, file_word: "skip-all-of-it".into(), line_word: "skip".into(), decoys: vec!["deno-lint-ignore-file".into(), "skip-all".into()], name: "custom-extends-custom" },
   ];
   v.into_iter()
     .map(|mut w| {
@@ -53,7 +56,7 @@ pub fn word_cfgs(rng: &mut Rng) -> Vec<WordCfg> {
     .collect()
 }
 
-fn gen_ext(rng: &mut Rng, src: &str) -> Option<ExtSpec> {
+fn gen_ext(rng: &mut Rng, src: &str, file_codes: Option<&Vec<String>>) -> Option<ExtSpec> {
   let n = rng.below(5);
   let mut diags = vec![];
   let mut bounds: Vec<usize> = (0..=src.len()).filter(|i| src.is_char_boundary(*i)).collect();
@@ -81,6 +84,19 @@ fn gen_ext(rng: &mut Rng, src: &str) -> Option<ExtSpec> {
       codes.push(c.to_string());
     }
   }
+  // a code the file-level directive names whose only diagnostics have no range: the directive suppresses them (they
+  // belong to no line) and is thereby used
+  if let Some(fc) = file_codes {
+    let named: Vec<&String> = fc.iter().filter(|c| EXT_CODES.contains(&c.as_str())).collect();
+    if !named.is_empty() && rng.chance(1, 2) {
+      let c = named[rng.below(named.len())].clone();
+      diags.retain(|d| d.0 != c);
+      diags.push((c.clone(), None, "ext message without a range".to_string()));
+      if !codes.contains(&c) {
+        codes.push(c);
+      }
+    }
+  }
   Some(ExtSpec { diags, codes })
 }
 
@@ -97,7 +113,8 @@ pub fn run(args: &Args) {
     let opts = DirGenOpts { file_word: &wc.file_word, line_word: &wc.line_word, decoys: wc.decoys.clone(), ts };
     let df = if crng.chance(1, 12) { first_line_variant(&mut crng, &opts) } else { directive_file(&mut crng, &opts) };
     let (codes, subset_kind) = rule_subset(&mut crng);
-    let ext = if crng.chance(1, 3) { gen_ext(&mut crng, &df.src) } else { None };
+    let names_ext = df.intended_file.as_ref().map_or(false, |fc| fc.iter().any(|c| EXT_CODES.contains(&c.as_str())));
+    let ext = if crng.chance(1, 3) || (names_ext && crng.chance(1, 2)) { gen_ext(&mut crng, &df.src, df.intended_file.as_ref()) } else { None };
     let ext_decline = ext.is_none() && crng.chance(1, 4);
     run_case(&mut out, case_no, wc, &df, &codes, subset_kind, ts, ext, ext_decline, &all);
   }
